@@ -145,9 +145,12 @@ impl<'ast> Visit<'ast> for Inner {
     }
     fn visit_expr_for_loop(&mut self, e: &'ast syn::ExprForLoop) {
         self.loops.push(format!(
-            "{{\"kind\":\"for\",\"span\":{},\"body_start\":{}}}",
+            "{{\"kind\":\"for\",\"span\":{},\"body_start\":{},\"body_end\":{},\"pat\":{},\"expr\":{}}}",
             span_json(e.span()),
-            br(e.body.brace_token.span.open()).0
+            br(e.body.brace_token.span.open()).0,
+            br(e.body.brace_token.span.close()).0,
+            span_json(e.pat.span()),
+            span_json(e.expr.span())
         ));
         syn::visit::visit_expr_for_loop(self, e);
     }
@@ -155,7 +158,18 @@ impl<'ast> Visit<'ast> for Inner {
         let mut params = Vec::new();
         for p in &e.inputs {
             let wild = matches!(p, syn::Pat::Wild(_));
-            params.push(format!("{{\"span\":{},\"wild\":{}}}", span_json(p.span()), wild));
+            // `&…&ident` patterns: how many `&`, and the identifier bound
+            let mut depth = 0;
+            let mut q = p;
+            while let syn::Pat::Reference(r) = q {
+                depth += 1;
+                q = &*r.pat;
+            }
+            let ident = match q {
+                syn::Pat::Ident(i) if i.by_ref.is_none() && i.subpat.is_none() => js(&i.ident.to_string()),
+                _ => "null".to_string(),
+            };
+            params.push(format!("{{\"span\":{},\"wild\":{},\"refdepth\":{},\"ident\":{}}}", span_json(p.span()), wild, depth, ident));
         }
         let body_is_block = matches!(&*e.body, syn::Expr::Block(_));
         let ret = match &e.output {
@@ -209,7 +223,15 @@ impl<'ast> Visit<'ast> for Inner {
         syn::visit::visit_expr_unsafe(self, e);
     }
     fn visit_expr_method_call(&mut self, e: &'ast syn::ExprMethodCall) {
-        self.calls.push(format!("{{\"name\":{},\"span\":{},\"dot\":{}}}", js(&e.method.to_string()), span_json(e.span()), br(e.dot_token.span()).0));
+        let args: Vec<String> = e.args.iter().map(|a| span_json(a.span())).collect();
+        self.calls.push(format!(
+            "{{\"name\":{},\"span\":{},\"dot\":{},\"recv\":{},\"args\":[{}]}}",
+            js(&e.method.to_string()),
+            span_json(e.span()),
+            br(e.dot_token.span()).0,
+            span_json(e.receiver.span()),
+            args.join(",")
+        ));
         syn::visit::visit_expr_method_call(self, e);
     }
     fn visit_expr_await(&mut self, e: &'ast syn::ExprAwait) {
@@ -278,8 +300,13 @@ impl Out {
             Some(b) => span_json(b.span()),
             None => "null".into(),
         };
+        // the tail expression of the body (the value the function returns when it falls off the end)
+        let tail = match block.and_then(|b| b.stmts.last()) {
+            Some(syn::Stmt::Expr(e, None)) => span_json(e.span()),
+            _ => "null".into(),
+        };
         self.items.push(format!(
-            "{{\"kind\":\"fn\",\"key\":{},\"ctx\":{},\"span\":{},\"attrs\":{},\"vis\":{},\"sig\":{},\"body\":{},\"loops\":[{}],\"closures\":[{}],\"macros\":[{}],\"cfgs\":[{}],\"unsafes\":[{}],\"calls\":[{}],\"nested\":[{}]}}",
+            "{{\"kind\":\"fn\",\"key\":{},\"ctx\":{},\"span\":{},\"attrs\":{},\"vis\":{},\"sig\":{},\"body\":{},\"tail\":{},\"loops\":[{}],\"closures\":[{}],\"macros\":[{}],\"cfgs\":[{}],\"unsafes\":[{}],\"calls\":[{}],\"nested\":[{}]}}",
             js(&key),
             js(ctx),
             span_json(whole),
@@ -287,6 +314,7 @@ impl Out {
             vis_json(vis),
             sig_json(sig),
             body,
+            tail,
             inner.loops.join(","),
             inner.closures.join(","),
             inner.macros.join(","),
